@@ -143,8 +143,42 @@ Definition rcol_spans_2 (c0 c1:rcol) : res (list Z) :=
   | RBytes a, RBytes b => spans_of_rle_2 bytes_neqb bytes_neqb a b
   end.
 
+(* reductions of a run-length encoded column on VALID spans (anything else is a harness bug): kid as for op 10;
+   level 1 (Session) additionally needs spans[-1] = row count *)
+Definition apply_rle (kid level:Z) (sp:list Z) (c:rcol) : val :=
+  let ok := valid_spansb (rcol_len c) sp && (if level =? 1 then nthZ sp (len sp - 1) =? rcol_len c else true) in
+  if negb ok then vbad else
+  let out (x:val) := answer (Ok x) (Some x) in
+  match c with
+  | RNum r =>
+      match kid with
+      | 0 => out (vlist (rle_index_of_min_ref Z.ltb sp r))
+      | 1 => out (vlist (rle_index_of_max_ref Z.ltb sp r))
+      | 5 => out (vlist (rle_min_ref Z.ltb 0 sp r))
+      | 6 => out (vlist (rle_max_ref Z.ltb 0 sp r))
+      | 7 => out (vlist (rle_first_ref 0 sp r))
+      | 8 => out (vlist (rle_last_ref 0 sp r))
+      | _ => vbad
+      end
+  | RBytes r =>
+      match kid with
+      | 0 => out (vlist (rle_index_of_min_ref bytes_ltb sp r))
+      | 1 => out (vlist (rle_index_of_max_ref bytes_ltb sp r))
+      | 5 => out (vlist2 (rle_min_ref bytes_ltb [] sp r))
+      | 6 => out (vlist2 (rle_max_ref bytes_ltb [] sp r))
+      | 7 => out (vlist2 (rle_first_ref [] sp r))
+      | 8 => out (vlist2 (rle_last_ref [] sp r))
+      | _ => vbad
+      end
+  end.
+
 Definition entry_C08 (v:val) : val :=
   match v with
+  | VL [VZ 22; VZ kid; VZ level; sp; c] =>
+      match as_list sp, as_rcol c with
+      | Some sp, Some c => apply_rle kid level sp c
+      | _, _ => vbad
+      end
   (* get_spans on a run-length encoded column (theorems spans_rle_*: = the models on the expanded column = THE spans) *)
   | VL [VZ 20; c] =>
       match as_rcol c with
